@@ -87,17 +87,26 @@ pub extern "C" fn cs_warm() {
     drop(a().load());
 }
 
-/// thread 1 holds 8 guards: its fast slots are full, further loads take the fallback path
+/// thread 1 holds 8 guards OF CONTAINER B (needs cs_setup2): its fast slots are full, further
+/// loads take the fallback path. (Debts on B's value are never touched by writers of A, which
+/// keeps the writer's slot walk free of forks.)
 #[no_mangle]
 pub extern "C" fn cs_fill8_t1() {
     for i in 0..8 {
-        cx().held1[i] = Some(a().load());
+        cx().held1[i] = Some(b().load());
     }
 }
 #[no_mangle]
 pub extern "C" fn cs_fill8_t2() {
     for i in 0..8 {
-        cx().held2[i] = Some(a().load());
+        cx().held2[i] = Some(b().load());
+    }
+}
+/// thread 1 holds 3 guards of A itself (their debts are paid by a concurrent writer of A)
+#[no_mangle]
+pub extern "C" fn cs_fill3a_t1() {
+    for i in 0..3 {
+        cx().held1[i] = Some(a().load());
     }
 }
 
@@ -285,6 +294,22 @@ pub extern "C" fn cs_final1() {
     expect_counts(i, usize::MAX);
     vassert(slots_all_empty(), 42);
     cover(13);
+}
+
+/// like cs_final2 after giving back the parked guards
+#[no_mangle]
+pub extern "C" fn cs_final2_release() {
+    for i in 0..8 {
+        if let Some(h) = cx().held1[i].take() {
+            check_payload(&h, 44);
+            drop(h);
+        }
+        if let Some(h) = cx().held2[i].take() {
+            check_payload(&h, 45);
+            drop(h);
+        }
+    }
+    cs_final2();
 }
 
 /// the parked guards of thread 1 are given back by the final function (any thread may do that),
